@@ -13,7 +13,7 @@ ASSUMPTIONS = ["integer data |v|<=9, integer box implied by the rows (u<=6)", "O
 STRATA = [
     ("bounded", 400, 8000),
     ("binary-explicit", 250, 5000),
-    ("looks-binary", 200, 4000),
+    ("looks-binary", 500, 8000),
     ("warm", 200, 4000),
     ("lns", 150, 3000),
     ("multi", 150, 3000),
@@ -142,17 +142,24 @@ def gen(stratum, rng, tier):
             c = [-abs(v) - 1 for v in c] if minimize else [abs(v) + 1 for v in c]  # knapsack-like
         configs += [{"heuristics": False}, {"lns_iterations": rng.randint(1, 4), "seed": rng.randint(0, 99)}]
     elif stratum == "looks-binary":
-        # LP optimum lies in [0,1] for the integer variables but there are no x<=1 rows: no tightening allowed
-        n = rng.randint(2, 4)
-        ints = list(range(n))
-        A = [[rng.choice([2, 3, 4, 5]) for _ in range(n)] for _ in range(rng.randint(1, 2))]
-        b = [rng.choice([3, 4, 5, 6, 7]) for _ in A]
-        for j in range(n):
-            row = [0] * n
-            row[j] = 1
-            A.append(row)
-            b.append(rng.choice([2, 3, 4]))
-        c = [rng.choice([1, 2, 3, 4, 5]) * (-1 if minimize else 1) for _ in range(n)]
+        # LP optimum lies in [0,1] for the integer variables (and is fractional) but there are no x<=1 rows, only
+        # wider bounds: no tightening to binary is allowed.  Rejection-sampled with the exact LP oracle.
+        from vf.oracles import lp as olp
+
+        for _ in range(60):
+            n = rng.randint(2, 3)
+            ints = list(range(n))
+            A = [[rng.choice([-2, -1, 0, 1, 2, 3, 4, 5]) for _ in range(n)] for _ in range(rng.randint(1, 3))]
+            b = [rng.choice([1, 2, 3, 4, 5, 6, 7]) for _ in A]
+            for j in range(n):
+                row = [0] * n
+                row[j] = 1
+                A.append(row)
+                b.append(rng.choice([2, 3]))
+            c = [rng.choice([1, 2, 3, 4, 5, -1, -2]) for _ in range(n)]
+            st, x, _ = olp.solve_exact(c, A, b, minimize)
+            if st == "optimal" and all(0 <= v <= 1 for v in x) and any(v.denominator != 1 for v in x):
+                break
         configs += [{"heuristics": False}, {"lns_iterations": 2, "seed": 1}]
     elif stratum == "warm":
         _bound_rows(rng, n, A, b, binary=rng.random() < 0.5)
